@@ -53,7 +53,7 @@ def _normalize(shape, recip):
     rp = R_N(shape, recip)
 
     def fn(c):
-        c.div_as_mul = True
+        c.div_as_inv = True
         A_ = sx.sym_array(c, "a", shape, kind="complex")
         for b in np.ndindex(shape[:-2]):
             c.assume(sum((sx.cabs2(x) for x in A_[b].ravel()), z3.RealVal(0)) > 0)
